@@ -147,20 +147,119 @@ fn prefix_case<K: Kit>(ctx: &Ctx, b: &mut Batch, kit: &K, h: &History, n1: u64, 
             }
         }
         (_, _) => {
-            let states = |s: &Snap| -> Vec<Vec<Vec<u64>>> {
-                let f = |t: &Vec<crate::drv::TNode>| t.iter().map(|n| n.s.iter().map(|x| x.to_bits()).collect::<Vec<u64>>()).collect::<Vec<_>>();
-                match s {
-                    Snap::Tree(t) => vec![f(t)],
-                    Snap::Trees(a, g) => vec![f(a), f(g)],
-                    Snap::Roadmap(r) => vec![r.iter().map(|(s, _)| s.iter().map(|x| x.to_bits()).collect()).collect()],
+            if let Some(what) = not_a_prefix(&da.snapshot(), &db.snapshot(), h.params.kind == PKind::Star) {
+                ctx.violate(&format!("more-time-different-decisions:{pname}"), format!("after {n1} vs {n2} iterations: {what}"), v.clone());
+            }
+        }
+    }
+}
+
+/// Is snapshot `a` (fewer iterations) a prefix of snapshot `b` (more iterations, same seed)?
+/// Node states always; parent links too where they are final once set (RRT, RRT-Connect - RRT*
+/// may legitimately re-parent earlier nodes later); roadmap edges among the first |a| milestones
+/// (they are created when the later of the two milestones is added, so they are final).
+fn not_a_prefix(a: &Snap, b: &Snap, rewires: bool) -> Option<String> {
+    let bits = |s: &Vec<f64>| s.iter().map(|x| x.to_bits()).collect::<Vec<u64>>();
+    let tree = |ta: &Vec<crate::drv::TNode>, tb: &Vec<crate::drv::TNode>, name: &str| -> Option<String> {
+        if ta.len() > tb.len() {
+            return Some(format!("{name}: {} nodes, but only {} after more iterations", ta.len(), tb.len()));
+        }
+        for (i, (x, y)) in ta.iter().zip(tb.iter()).enumerate() {
+            if bits(&x.s) != bits(&y.s) {
+                return Some(format!("{name}: node {i} is {:?} in the shorter run and {:?} in the longer one", x.s, y.s));
+            }
+            if !rewires && x.parent != y.parent {
+                return Some(format!("{name}: node {i} has parent {:?} in the shorter run and {:?} in the longer one", x.parent, y.parent));
+            }
+        }
+        None
+    };
+    match (a, b) {
+        (Snap::Tree(x), Snap::Tree(y)) => tree(x, y, "tree"),
+        (Snap::Trees(x1, x2), Snap::Trees(y1, y2)) => tree(x1, y1, "start tree").or_else(|| tree(x2, y2, "goal tree")),
+        (Snap::Roadmap(x), Snap::Roadmap(y)) => {
+            if x.len() > y.len() {
+                return Some(format!("roadmap: {} milestones, but only {} after more samples", x.len(), y.len()));
+            }
+            for (i, ((sx, ex), (sy, ey))) in x.iter().zip(y.iter()).enumerate() {
+                if bits(sx) != bits(sy) {
+                    return Some(format!("roadmap: milestone {i} differs"));
                 }
-            };
-            let (sa, sb) = (states(&da.snapshot()), states(&db.snapshot()));
-            for (ta, tb) in sa.iter().zip(sb.iter()) {
-                if ta.len() > tb.len() || ta[..] != tb[..ta.len()] {
-                    ctx.violate(&format!("more-time-different-decisions:{pname}"), format!("tree after {n1} iterations ({} nodes) is not a prefix of the tree after {n2} iterations ({} nodes)", ta.len(), tb.len()), v.clone());
-                    break;
+                let mut a: Vec<usize> = ex.iter().copied().filter(|j| *j < x.len()).collect();
+                let mut c: Vec<usize> = ey.iter().copied().filter(|j| *j < x.len()).collect();
+                a.sort_unstable();
+                c.sort_unstable();
+                if a != c {
+                    return Some(format!("roadmap: milestone {i} is linked to {a:?} after {} samples but to {c:?} (among the same milestones) after more samples", x.len()));
                 }
+            }
+            None
+        }
+        _ => Some("snapshots of different kinds".into()),
+    }
+}
+
+/// One planning call (tree planners: `solve`; PRM: `construct_roadmap`) of exactly `n`
+/// iterations on a fresh instance, under a pacing of the virtual clock.
+fn paced<K: Kit>(kit: &K, h: &History, n: u64, plan: Option<Vec<u64>>) -> Option<(Res, Snap)> {
+    crate::watch::set_case(h.to_json());
+    oxmpl::verif::arm(0);
+    let mut d = Drv::<K>::new(kit, &h.params, (n as f64 - 0.5) * 1e-3).ok()?;
+    {
+        let mut l = d.log.borrow_mut();
+        l.keep_events = false;
+        l.budget = 3_000_000;
+        l.tick_sample = crate::drv::MS;
+        l.tick_valid = 0;
+    }
+    let mode = match &h.script {
+        Some(s) if !s.is_empty() => SampleMode::Scripted(s.clone()),
+        _ => SampleMode::PlannerRng,
+    };
+    let inst = d.install(&h.problems[0], mode).ok()?;
+    if d.setup(inst) != Res::Done {
+        return None;
+    }
+    d.pending_tick_plan = plan;
+    let res = if h.params.kind == PKind::Prm { d.construct_roadmap(true) } else { d.solve_iters(n) };
+    Some((res, d.snapshot()))
+}
+
+/// "Wall-clock time may only affect how many iterations complete, never which decisions are
+/// taken": the same seed, the same number of iterations, but a different distribution of the
+/// elapsed time over the iterations (uniform / most of the budget gone after the first sample /
+/// most of it still left before the last one) must give the same result and the same tree or
+/// roadmap, links and costs included. PRM roadmaps built from n1 < n2 samples must agree on
+/// the first n1 milestones and the links among them.
+fn pace_case<K: Kit>(ctx: &Ctx, b: &mut Batch, kit: &K, h: &History, r: &mut Sm) {
+    let n = 4 + r.below(150) as u64;
+    let pname = h.params.kind.name();
+    let Some((ra, sa)) = paced::<K>(kit, h, n, None) else { return };
+    if matches!(ra, Res::Panic { .. } | Res::Budget) {
+        return;
+    }
+    let front = if r.bool(0.5) { Some(*r.pick(&[0.55, 0.7, 0.9])) } else { None };
+    let Some((rb, sb)) = paced::<K>(kit, h, n, Some(Drv::<K>::pace_plan(n, front))) else { return };
+    b.evaluations += 1;
+    b.count("pacing_pairs", 1);
+    b.count(&format!("pacing_pairs[{pname}]"), 1);
+    let mut v = h.to_json();
+    v["property"] = json!("C07");
+    v["pace"] = json!({"n": n, "front": front});
+    if ra != rb {
+        ctx.violate(&format!("clock-pacing-changes-decisions:{pname}"), format!("{n} iterations, uniform clock: {}; {} clock: {}", ra.short(), if front.is_some() { "front-loaded" } else { "back-loaded" }, rb.short()), v);
+    } else if sa != sb {
+        ctx.violate(&format!("clock-pacing-changes-decisions:{pname}"), format!("{n} iterations give the same result ({}) but a different tree / roadmap (sizes {} / {}) when the elapsed time is distributed differently over the iterations", ra.short(), sa.size(), sb.size()), v);
+    }
+    if h.params.kind == PKind::Prm {
+        let n2 = n + 1 + r.below(60) as u64;
+        if let Some((_, s2)) = paced::<K>(kit, h, n2, None) {
+            b.count("roadmap_prefix_pairs", 1);
+            if let Some(what) = not_a_prefix(&sa, &s2, false) {
+                let mut v = h.to_json();
+                v["property"] = json!("C07");
+                v["pace"] = json!({"n": n, "n2": n2});
+                ctx.violate("more-time-different-decisions:PRM", format!("roadmaps from {n} and {n2} samples: {what}"), v);
             }
         }
     }
@@ -222,6 +321,9 @@ pub fn run(tier: Tier, seed: u64) -> i32 {
                     let n2 = n1 + 1 + r.below(120) as u64;
                     prefix_case::<K>(&ctx, &mut b, &kit, &h, n1, n2);
                 }
+                if i % 4 == 1 {
+                    pace_case::<K>(&ctx, &mut b, &kit, &h, &mut r);
+                }
             });
             i += shards;
         }
@@ -233,11 +335,11 @@ pub fn run(tier: Tier, seed: u64) -> i32 {
     }
     // real-vs-virtual comparisons depend on the wall clock (a loaded machine may time out): they
     // are counted in the evidence but not required
-    for k in ["paths_compared", "prefix_pairs"] {
+    for k in ["paths_compared", "prefix_pairs", "pacing_pairs[RRT]", "pacing_pairs[RRTConnect]", "pacing_pairs[RRTStar]", "pacing_pairs[PRM]", "roadmap_prefix_pairs"] {
         ctx.require(k);
     }
     ctx.finish(
-        "cases = call histories ({setup; solve}, {setup; solve; solve}, {setup; solve; setup(P2); solve}, {solve; setup; solve}, PRM {setup; construct; solve; set_pd(P2); solve; construct; solve} ...) executed on two fresh instances with the same seed; results compared at every call (paths bit for bit, errors by variant, snapshots by hash); goal samplers that consume the planner's generator; iteration counts made exact by the virtual clock; plus prefix pairs (N vs N' > N iterations) and real-time vs virtual-time runs; distinct+non-trivial = distinct returned paths with >= 3 states",
+        "cases = call histories ({setup; solve}, {setup; solve; solve}, {setup; solve; setup(P2); solve}, {solve; setup; solve}, PRM {setup; construct; solve; set_pd(P2); solve; construct; solve} ...) executed on two fresh instances with the same seed; results compared at every call (paths bit for bit, errors by variant, snapshots by hash); goal samplers that consume the planner's generator; iteration counts made exact by the virtual clock; plus prefix pairs (N vs N' > N iterations: node states, final parent links, roadmap links among the common milestones), clock-pacing pairs (same N iterations with the elapsed time distributed uniformly / front-loaded / back-loaded over the iterations: results, trees and roadmaps must be identical) and real-time vs virtual-time runs; distinct+non-trivial = distinct returned paths with >= 3 states",
         &[
             "user callbacks are deterministic (they are: pure functions of the state, plus the generator the planner passes in)",
             "the two instances run on the same thread, so any use of thread-local or OS entropy shows up as a difference",
@@ -255,6 +357,13 @@ pub fn replay(v: &Value, file: &str) -> i32 {
         run_case::<K>(&ctx, &mut b, &kit, &h);
         if let Some(p) = v["prefix"].as_array() {
             prefix_case::<K>(&ctx, &mut b, &kit, &h, p[0].as_u64().unwrap_or(1), p[1].as_u64().unwrap_or(2));
+        }
+        if !v["pace"].is_null() {
+            // (the pacing parameters are re-drawn; the recorded ones are in the replay file)
+            let mut r = Sm::derive(0, &[77]);
+            for _ in 0..20 {
+                pace_case::<K>(&ctx, &mut b, &kit, &h, &mut r);
+            }
         }
     });
     ctx.merge(b);
